@@ -22,8 +22,9 @@ enum Adapter { A_CB_AWAIT = 0, A_CB_AWAIT_ALLOC, A_MAKE_PROMISE, A_MAKE_PROMISE_
 static const char *ad_names[] = {"callback_await", "callback_await_alloc", "make_promise", "make_promise+storage", "discard", "future_conv<member>", "future_conv<member,void>",
                                  "future_conv<member,suspend_point>", "future_conv<member,suspend_point,void>", "future_conv<static>", "future_conv<static,ctx>", "call_fn_future_awaiter",
                                  "callback_await(factory)", "callback_await(factory) from a coroutine", "callback_await_alloc(factory) from a coroutine"};
-enum Outcome { O_VALUE = 0, O_EXC, O_DROP, NOUT };
-static const char *out_names[] = {"value", "exception", "drop"};
+// overwritten: the pending promise is given up by move-assigning another promise over it (observed like a drop)
+enum Outcome { O_VALUE = 0, O_EXC, O_DROP, O_OVERWRITTEN, NOUT };
+static const char *out_names[] = {"value", "exception", "drop", "overwritten"};
 enum Timing { T_BEFORE = 0, T_LATER, NTIM };
 static const char *tim_names[] = {"resolved-before-registration", "resolved-later"};
 
@@ -59,6 +60,8 @@ struct Src {
                 saved(5);
         } else if (outcome == O_EXC)
             saved(std::make_exception_ptr(TestError()));
+        else if (outcome == O_OVERWRITTEN)
+            saved = cocls::promise<T>();
         else
             saved(cocls::drop);
     }
@@ -319,6 +322,8 @@ static void run_cell(seqx::Runner &R, int ad, int out, int tim, int cthrow) {
                     p(5);
                 else if (out == O_EXC)
                     p(std::make_exception_ptr(TestError()));
+                else if (out == O_OVERWRITTEN)
+                    p = cocls::promise<int>();
                 else if (tim == T_BEFORE)
                     p(cocls::drop);
                 else {
